@@ -63,3 +63,13 @@ Definition workaround (r : R) (ml : list R) : list R :=           (* r = 2**alph
   | m0 :: m1 :: m2 :: t => m0 :: m1 :: m2 :: floor_chain r m2 t
   | _ => ml
   end.
+
+(* ------------------------------------------------------------------ wave 7 (audit-4 B5): the numpy path of a non-positive entry
+   np.log2 of 0 is -inf (of a negative number or of nan: nan); np.linalg.lstsq of a right-hand side with such an entry answers
+   x = [nan, nan] for EVERY number of levels L >= 1 (observed on numpy 2.x: [3,0,.25,.125], [3,0], [3,.5,0], [3,nan], ...), and
+   Python's builtin max(max_val, -nan) keeps its first argument.  Coq's ln 0 = 0 must therefore never be reached: the slope is
+   an OPTION, None = "x is nan".  The generated log2_regression (Gen/GenC06Regress.v) matches on it. *)
+From RV Require Import Base.RB.
+Definition all_positive (ys : list R) : bool := forallb (Rltb 0) ys.
+Definition log2_slope_np (ys : list R) : option R :=
+  if all_positive ys then Some (log2_slope ys) else None.
